@@ -23,8 +23,12 @@ class C06(Prop):
              "recorder creates, the record path and every file FindSegments can return (playback, cleaner, API list) "
              "lie component-wise under the absolute common path; the API's absolutePathInside guard and delete "
              "handler only let through paths with the base as prefix; the path manager entry points accept valid "
-             "names only (after fix 0d7105d). The models are tied to the code by running the real functions, the "
-             "real recorder, FindSegments on a real tree, the real delete handler and the real path manager on a "
+             "names only (after fix 0d7105d); on the listing side, every name FindAllPathsWithSegments / "
+             "regexpPathFindPathsWithSegments reads back from the file names of the recording tree is listed iff it "
+             "is a valid path name matching the configuration's regular expression (or is a non-regexp "
+             "configuration's own name), file by file, for every record path format (flat layouts with %path in the "
+             "file name included) and every directory content. The models are tied to the code by running the real functions, the "
+             "real recorder, FindSegments and FindAllPathsWithSegments on real trees, the real delete handler and the real path manager on a "
              "shared stream of grammar-valid and malformed names and comparing inside Coq.",
         note="Containment is lexical (symlinks inside the recording tree are not modelled) and is claimed for "
              "record path formats satisfying format_ok (every % starts a placeholder, no backslash, no '..' segment "
@@ -39,13 +43,20 @@ class C06(Prop):
             "%2e%2e, %2F, backslashes, NUL, unicode dots, overlong UTF-8, regexp keys) + mutations of valid names; the "
             "same stream is replayed on IsValidPathName, FindSegments over generated directory trees with decoys where "
             "a traversal would land, the delete-segment handler, the real recorder (accepted names only) and the four "
-            "path manager entry points (plus every configuration key as a request name); Clean/Abs/CommonPath on "
+            "path manager entry points (plus every configuration key as a request name); FindAllPathsWithSegments with "
+            "1-3 configurations (all_others, anchored/unanchored regexps, a regexp matching only invalid names, fixed "
+            "names) over trees rendered with 15 record path layouts (directory per path, FLAT = %path in the file "
+            "name, time directory first, %path last, %path twice; relative and absolute) holding valid, invalid, "
+            "matching and non-matching decoded names side by side in one directory, invalid ones sorting before and "
+            "after the valid ones (classes list-<layout>-mixed-dir/...); Clean/Abs/CommonPath on "
             "random segment soups. Non-trivial = accepted, or rejected for a non-grammar reason; distinct = distinct "
             "descriptions")
     trusted_base = ["Coq 8.16.1 kernel + VM (vm_compute for cases)",
-                    "in-package Go drivers zz_verif_c06_test.go in internal/recordstore, internal/api, internal/recorder, internal/core",
-                    "models Model/C06_PathName.v, Lib/PathClean.v, Model/C26_RecPath.v hand-written, tied by correspondence",
+                    "in-package Go drivers zz_verif_c06_test.go (+ zz_verif_c06list_test.go) in internal/recordstore, internal/api, internal/recorder, internal/core",
+                    "models Model/C06_PathName.v, Model/C06_Listing.v, Lib/PathClean.v, Model/C26_RecPath.v hand-written, tied by correspondence",
                     "oracle: conf.FindPathConf's own outcome (found/resolves) is an input of the delete and entry-point cases (C14 models it)",
+                    "oracle: a path configuration's regular expression enters the listing model as a boolean function; the "
+                    "driver ships its value (real regexp engine) for every name placed, decoded or returned",
                     "Go's regexp engine for rePathName (modelled as a byte class, compared on every name)"]
     assumptions = ["paths are compared lexically: no symlinks below the common path",
                    "Unix path semantics (separator '/'); the working directory is absolute and contains no '%' or backslash",
